@@ -7,6 +7,7 @@ import (
 	"github.com/bradenaw/juniper/xsync"
 
 	"verifsim/sim"
+	"verifsim/time"
 	vsync "verifsim/sync"
 )
 
@@ -118,6 +119,14 @@ func condWorld(r *R) {
 			cancellable = append(cancellable, w.ctx)
 		case 4:
 			w.ctx = PreCancelled(root, fmt.Sprintf("w%d", i))
+			if r.Choose(3, "cancelled-then-deadline-passed") == 2 {
+				// cancelled by hand, and by the time of the Wait its deadline has passed as well: the
+				// context's error stays context.Canceled
+				w.ctx = NewDeadlineCtxExact(root, fmt.Sprintf("w%d", i), time.Millisecond)
+				w.ctx.Cancel()
+				sim.Sleep(2*time.Millisecond, "let-the-deadline-pass")
+				r.Probe("waiter-context-cancelled-before-its-deadline-passed")
+			}
 			r.Fault("ctx_precancelled")
 		default:
 			w.ctx = root
